@@ -29,9 +29,9 @@ type c15Case struct {
 	// SelShape: how "pool = x" is written: "" matchLabels; "in2" pool In (x, y); "exists+notin2" pool Exists and
 	// pool NotIn (a, b) - all equivalent over the node alphabet (the label is x or absent)
 	SelShape string `json:"selector_shape,omitempty"`
-	Keys     bool      `json:"antiaffinity_zone"`
-	Prev     string    `json:"previous_list"` // empty valid invalid ghost
-	Paused   string    `json:"paused"`        // "", annotation, condition
+	Keys     bool   `json:"antiaffinity_zone"`
+	Prev     string `json:"previous_list"` // empty valid invalid ghost
+	Paused   string `json:"paused"`        // "", annotation, condition
 }
 
 func c15Build(c c15Case, now time.Time) *w.State {
